@@ -3,6 +3,7 @@ package props
 import (
 	"bytes"
 	"context"
+	"errors"
 	"fmt"
 	"github.com/ipld/go-ipld-prime/storage/fsstore"
 	"io"
@@ -151,6 +152,19 @@ func c20Build(rng *fw.RNG) *c20Pool {
 		if dagcbor.Decode(nb, bytes.NewReader(refcbor.Encode(v))) == nil {
 			nodeOps(nb.Build(), false)
 		}
+		// produced by datamodel.Copy into a builder that keeps what it is given (integers above MaxInt64 travel
+		// as nodes there): whatever Copy hands over ends up inside this shared node (round-4 seed C20-10: a
+		// hand-over flag that lives in the finished node and is toggled by every later Copy of it)
+		cb := basicnode.Prototype.Any.NewBuilder()
+		withBig := model.List(v, model.Uint(1<<63+uint64(rng.Intn(1000))), model.Map(model.E("u", model.Uint(1<<64-1))))
+		if src, err := build.With(basicnode.Prototype.Any, withBig, &build.Prog{R: rng.Fork()}); err == nil && datamodel.Copy(src, cb) == nil {
+			nodeOps(cb.Build(), false)
+		}
+		// ... and the scalar itself copied at top level (only there does Copy, not AssignNode, hand it over)
+		cb2 := basicnode.Prototype.Any.NewBuilder()
+		if datamodel.Copy(basicnode.NewUint(1<<63+uint64(rng.Intn(1000))), cb2) == nil {
+			nodeOps(cb2.Build(), false)
+		}
 	}
 	// bindnode: explicit schema, wrapped Go value (typed + repr views)
 	g := &c05Struct{A: int64(rng.Intn(1000)), B: model.GenString(rng, false)}
@@ -269,6 +283,18 @@ func c20Build(rng *fw.RNG) *c20Pool {
 		lnk := cidlink.Link{Cid: cc}
 		obj := objN
 		objN++
+		// a load whose decode FAILS (a prototype that refuses the block's kind): the rest of the block is drained
+		// into the hasher and the decoder's error — not a hash mismatch — comes back, also when several such
+		// loads run at once (round-4 seed C20-11: the drain going through one process-wide buffer)
+		add("load", obj, func() uint64 {
+			var rej datamodel.NodePrototype = basicnode.Prototype.String
+			if raw, _ := lsys.LoadRaw(linking.LinkContext{}, lnk); len(raw) > 0 && raw[0]>>5 == 3 {
+				rej = basicnode.Prototype.Int
+			}
+			_, err := lsys.Load(linking.LinkContext{}, lnk, rej)
+			var hm linking.ErrHashMismatch
+			return fw.HashString(fmt.Sprint(err == nil, errors.As(err, &hm)))
+		})
 		add("load", obj, func() uint64 {
 			n, err := lsys.Load(linking.LinkContext{}, lnk, basicnode.Prototype.Any)
 			if err != nil {
